@@ -166,6 +166,16 @@ func init() {
 			x.addObligation(&Obligation{ID: a[1].(string), Kind: "reach", Cond: x.ts.Not(x.term(a[0])), Expect: "sat"})
 			return nil
 		},
+		// vForget(): drops the path conditions accumulated so far (the obligations already recorded keep theirs).  For
+		// harnesses that run many independent cases on fresh symbols in one path: every obligation carries a copy of
+		// the path, which otherwise grows with every case.  Dropping assumptions only adds behaviours (sound).
+		"vForget": func(x *Exec, fn *ssa.Function, a []Value) Value {
+			if x.journaling > 0 {
+				panic(specAbort{"vForget inside speculation"})
+			}
+			x.path = nil
+			return nil
+		},
 		"vUncut": func(x *Exec, fn *ssa.Function, a []Value) Value {
 			delete(x.cuts, a[0].(string))
 			return nil
